@@ -25,7 +25,7 @@ def base_grids():
     B.append(N.mkgrid('2.0', [('n', N.num(12345.0))],
                       [('a', []), ('b', [])],
                       [(N.num(1e22), N.num(0.001, '%')), (N.num(float('inf')), N.num(float('nan'))), (N.num(float('-inf')), N.num(1234567.0, 'kg')),
-                       (N.num(0.0), N.num(-0.5, u'°C'))]))
+                       (N.num(0.0), N.num(-0.5, u'°C')), (N.num(7.0, u'\u2126'), N.num(7.0, u'k\u212a'))]))
     # 2: text-like kinds
     B.append(N.mkgrid('2.0', [('s', ('str', 'a"b\\c$d\ne\tf'))],
                       [('str', []), ('uri', []), ('ref', [])],
@@ -34,7 +34,9 @@ def base_grids():
                        (('bin', 'text/plain'), N.NULL, ('ref', 'r2', '')),
                        # characters that are legal raw inside ZINC text but that generic text tooling treats as
                        # line breaks / blanks / marks: DEL, NEL, NBSP, LS, PS, BOM, a non-character, an astral one
-                       (('str', u'\x7f\x85\xa0\u2028\u2029\ufeff\uffff\U0001f600'), ('uri', u'u\x7f\x85\xa0\u2028\u2029\ufeff'), ('ref', 'r3', u'\x85\u2028\u3000'))]))
+                       (('str', u'\x7f\x85\xa0\u2028\u2029\ufeff\uffff\U0001f600'), ('uri', u'u\x7f\x85\xa0\u2028\u2029\ufeff'), ('ref', 'r3', u'\x85\u2028\u3000')),
+                       # text that Unicode normalisation would rewrite (decomposed accent, OHM / KELVIN / ANGSTROM signs, a ligature), raw
+                       (('str', u'e\u0301 \u2126\u212a\u212b \ufb01 \U0002f800'), ('uri', u'e\u0301/\u212b'), ('ref', 'r4', u'A\u030a'))]))
     # 3: temporal + coordinates
     B.append(N.mkgrid('2.0', [('ts', _dt('UTC', 2020, 6, 1, 12, 0, 0))],
                       [('d', []), ('t', []), ('dt', []), ('c', [])],
